@@ -174,7 +174,7 @@ def kani_cmd(harnesses, group, harness_timeout, jobs, extra=None):
     return cmd
 
 
-def run_harnesses(obligations, harness_timeout=300, jobs=16):
+def run_harnesses(obligations, harness_timeout=300, jobs=16, extra=None):
     """Run the Kani obligations (grouped by flag group). Returns (results dict, build info)."""
     ensure_playback_placeholders()
     results = {}
@@ -185,7 +185,7 @@ def run_harnesses(obligations, harness_timeout=300, jobs=16):
     with Lock("kani"):
         for group, obs in sorted(groups.items()):
             names = [o.name for o in obs]
-            cmd = kani_cmd([o.full_name for o in obs], group, harness_timeout, min(jobs, max(1, len(names))))
+            cmd = kani_cmd([o.full_name for o in obs], group, harness_timeout, min(jobs, max(1, len(names))), extra)
             # overall timeout: build (<= 10 min cold) + every harness could time out in waves
             waves = (len(names) + jobs - 1) // jobs
             overall = 900 + waves * (harness_timeout + 30)
@@ -218,7 +218,7 @@ def _tail(s, n):
 PLAYBACK_BLOCK_RE = re.compile(r"```\s*\n(.*?)```", re.S)
 
 
-def concrete_playback(ob, harness_timeout=300):
+def concrete_playback(ob, harness_timeout=900):
     """Re-run one failing harness with --concrete-playback=print; return (test source or None, raw)."""
     cmd = MEM_CAP + ["cargo", "kani", "--lib", "-Z", "function-contracts", "-Z", "stubbing", "-Z", "unstable-options",
            "-Z", "concrete-playback", "--concrete-playback=print"] + FLAG_GROUPS[ob.group.split(",")[0]]
